@@ -225,6 +225,18 @@ func sameValue(p *Prog, a, b ssa.Value) bool {
 	if ua == ub {
 		return true
 	}
+	// two loads of the same field of the same single-assignment local
+	if la, ok := ua.(*ssa.UnOp); ok && la.Op == token.MUL {
+		if lb, ok := ub.(*ssa.UnOp); ok && lb.Op == token.MUL {
+			if fa, ok := la.X.(*ssa.FieldAddr); ok {
+				if fb, ok := lb.X.(*ssa.FieldAddr); ok && fa.X == fb.X && fa.Field == fb.Field {
+					if al, ok := fa.X.(*ssa.Alloc); ok && singleStore(al) != nil && len(storesInto(al)) == 1 {
+						return true
+					}
+				}
+			}
+		}
+	}
 	// embedded interface fields etc.: identical access paths without calls or phis in between
 	da, db := p.D(a), p.D(b)
 	return da == db && !strings.Contains(da, "(") && !strings.Contains(da, "φ")
